@@ -82,6 +82,21 @@ CLAIMS = {
             "Not decided: value equality before/after freeze, hash stability, atomicity of failed mutations. Trusted: "
             "rustc front end, svfacts, value-bearing type predicate, reviewed writer table.",
             "DESIGN.md section 2, C04"),
+    "C02": ("call-graph effect reachability from speculative natives + K9 table extraction of the purity/inlining "
+            "classifiers + branch-sensitive MIR dominance of fold/inline guards + constant-argument extraction",
+            "Structural clauses only: no native registered speculative_exec_safe reaches a call-back into user code, a "
+            "mutation entry point, a module-slot write or print (resolved call graph incl. vtable dispatch); the "
+            "speculation gate; is_pure_infallible / is_pure_infallible_to_bool / is_safe_to_inline_expr map every "
+            "fallible or effectful IR node to false/None (extracted from the MIR switch); dead statements, branches and "
+            "loops are removed only on the classifier's true/Some edge; a module global is inlined only under "
+            "assign_count==AtMostOnce and frozen; folds only on the success edge with builtin constant operands; no "
+            "unwrap of an evaluation result in the compiler; inlining guards (no *args/**kwargs, safe body, only "
+            "parameter locals, untyped defs); assignment counting single-sourced (AtMostOnce only outside loops, Any "
+            "on re-assignment, For passes InLoop::Yes); definitely-assigned save/restore pairing, unchecked mov only "
+            "when definitely assigned, conditional operands never marked, param_count counts the slotted parameters.",
+            "Not decided: that each fold computes the right value; substitution correctness; frozen re-optimisation "
+            "equivalence. Trusted: rustc front end, svfacts, call-graph model, sink table.",
+            "DESIGN.md section 2, C02"),
 }
 
 
